@@ -28,6 +28,7 @@ type tmplEdge struct {
 	guards   []string          // conditions whose else-part holds the invocation
 	within   []string          // conditions whose then-part holds the invocation
 	dict     map[string]string // the dict argument, key → source text
+	decls    map[string]string // variable declarations of the enclosing template
 	where    string
 	off      int
 }
@@ -58,7 +59,7 @@ func c04TemplateRecursion(ctx *Ctx, r *Report) {
 						return v
 					})
 				}
-				edges = append(edges, tmplEdge{from: name, to: to, arg: expanded, guards: append([]string{}, guards...), within: append([]string{}, within...), dict: dict, where: ts.posOf(ctx, name, node), off: int(node.Position())})
+				edges = append(edges, tmplEdge{from: name, to: to, arg: expanded, guards: append([]string{}, guards...), within: append([]string{}, within...), dict: dict, decls: decls, where: ts.posOf(ctx, name, node), off: int(node.Position())})
 				if succ[name] == nil {
 					succ[name] = map[string]bool{}
 				}
@@ -156,7 +157,7 @@ func c04TemplateRecursion(ctx *Ctx, r *Report) {
 				continue
 			}
 			cyclic++
-			m := tmplResolveRe.FindStringSubmatch(e.arg)
+			m := tmplResolveRe.FindStringSubmatch(tmplTypeCarrying(e))
 			if m == nil {
 				continue
 			}
@@ -171,7 +172,7 @@ func c04TemplateRecursion(ctx *Ctx, r *Report) {
 			guarded := ""
 			for _, g := range e.guards {
 				// the else-part must imply that the test is false: the test alone, or an operand of a top-level `or`
-				if t := strings.TrimSpace(g); strings.Contains(g, "isRecursiveCollection "+field) && (strings.HasPrefix(t, "isRecursiveCollection ") || strings.HasPrefix(t, "or ")) {
+				if tmplExcludesRecursive(strings.TrimSpace(g), field) {
 					guarded = g
 				}
 			}
@@ -215,4 +216,87 @@ func c04TemplateRecursion(ctx *Ctx, r *Report) {
 	r.Floor("template invocations", 100)
 	r.Floor("template invocations closing a cycle", 6)
 	r.Floor("cyclic template invocations that follow a reference", 4)
+}
+
+// tmplExcludesRecursive: the else-part of the test `guard` implies that `field` is not a collection defined in terms
+// of itself reached through a reference: the test is `isRecursiveCollection F`, or `and F.IsRef (isRecursiveCollection F)`
+// (resolving a type that is not a reference is the identity: the step is then structural), alone or as an operand of a
+// top-level `or`. Any other context (an `and` with other operands, a `not`) does not give that implication.
+func tmplExcludesRecursive(guard, field string) bool {
+	bare := "isRecursiveCollection " + field
+	conj := "and " + field + ".IsRef (" + bare + ")"
+	if guard == bare || guard == conj {
+		return true
+	}
+	if !strings.HasPrefix(guard, "or ") {
+		return false
+	}
+	// the operands of the top-level `or`, split on spaces outside parentheses
+	var operands []string
+	depth, start := 0, 3
+	for i := 3; i <= len(guard); i++ {
+		if i == len(guard) || (guard[i] == ' ' && depth == 0) {
+			if i > start {
+				operands = append(operands, guard[start:i])
+			}
+			start = i + 1
+			continue
+		}
+		switch guard[i] {
+		case '(':
+			depth++
+		case ')':
+			depth--
+		}
+	}
+	found := false
+	for _, op := range operands {
+		switch {
+		case op == "("+bare+")" || op == "("+conj+")":
+			found = true
+		case strings.Contains(op, "isRecursiveCollection"):
+			// the test inside another conjunction / negation: its falsity is not implied
+			return false
+		}
+	}
+	return found
+}
+
+var tmplBooleanValue = regexp.MustCompile(`^\(*\s*(and|or|not|eq|ne|lt|gt|le|ge)\s|\.(Nullable|Required|Is[A-Z][A-Za-z]*|Has[A-Z][A-Za-z]*)\)*$|^(true|false)$`)
+
+// tmplTypeCarrying: the part of an invocation's argument that can carry a type. With a dict argument, entries whose
+// value is a truth value (a boolean operator, a flag or predicate of a type) carry none: `"Nullable" (and
+// $field.Type.Nullable (not (resolveRefs $field.Type).IsConcreteScalar))` follows a reference only to compute a flag.
+func tmplTypeCarrying(e tmplEdge) string {
+	if len(e.dict) == 0 {
+		return e.arg
+	}
+	// the dict entries, with the variables expanded the way e.arg was: recover them from e.arg is not possible, so
+	// boolean entries are recognised on their source text and removed from the expanded argument by their key
+	out := e.arg
+	for k, v := range e.dict {
+		val := strings.TrimSpace(v)
+		boolean := tmplBooleanValue.MatchString(val)
+		if !boolean && strings.HasPrefix(val, "$") && e.decls != nil {
+			if d, ok := e.decls[val]; ok {
+				boolean = tmplBooleanValue.MatchString(strings.TrimSpace(d))
+			}
+		}
+		if !boolean {
+			continue
+		}
+		// cut `"Key" <value>` up to the next `"Other"` key or the end
+		idx := strings.Index(out, `"`+k+`"`)
+		if idx < 0 {
+			continue
+		}
+		restStart := idx + len(k) + 2
+		next := regexp.MustCompile(`"[A-Za-z]+"\s`).FindStringIndex(out[restStart:])
+		end := len(out)
+		if next != nil {
+			end = restStart + next[0]
+		}
+		out = out[:idx] + out[end:]
+	}
+	return out
 }
